@@ -108,10 +108,12 @@ package agessh
 //@   loop 1 invariant#nomatch forall j in 0..rangeindex+1 :: !(stanzas[j].Type == keytype(id(i.pubKey)) && len(stanzas[j].Args) >= 1 && stanzas[j].Args[0] == fpof(i.pubKey))   [C19]
 //@   loop 1 decreases len(stanzas) - rangeindex
 //@   ensures#noprompt (old(i.decrypted) == nil && old(forall j in 0..len(stanzas) :: !(stanzas[j].Type == keytype(id(i.pubKey)) && len(stanzas[j].Args) >= 1 && stanzas[j].Args[0] == fpof(i.pubKey)))) ==> $ppcalls == old($ppcalls) && fileKey == nil && err != nil   [C19]
+//@   ensures#prompts (old(i.decrypted) == nil && old(exists j in 0..len(stanzas) :: (stanzas[j].Type == keytype(id(i.pubKey)) && len(stanzas[j].Args) >= 1 && stanzas[j].Args[0] == fpof(i.pubKey) && (forall k in 0..j :: !(stanzas[k].Type == keytype(id(i.pubKey)) && len(stanzas[k].Args) < 1))))) ==> $ppcalls == old($ppcalls) + 1   [C01 C05 C19]
 //@   ensures#once $ppcalls <= old($ppcalls) + 1                                                                   [C19]
 //@   ensures#cached old(i.decrypted) != nil ==> $ppcalls == old($ppcalls) && i.decrypted == old(i.decrypted)       [C19]
-//@   ensures#validated i.decrypted != old(i.decrypted) ==> old(i.decrypted) == nil && $pkeqn == old($pkeqn) + 1 && $pkeqr && $ppcalls == old($ppcalls) + 1   [C19]
+//@   ensures#validated i.decrypted != old(i.decrypted) ==> old(i.decrypted) == nil && $pkeqn == old($pkeqn) + 1 && $pkeqr && $ppcalls == old($ppcalls) + 1   [C04 C19]
 //@   ensures#typednil i.decrypted != old(i.decrypted) ==> id(i.decrypted) != 0                                     [C19 C14]
+//@   ensures#onlycache i.pubKey == old(i.pubKey) && i.pemBytes == old(i.pemBytes) && i.recipient == old(i.recipient)   [C19 C20]
 
 //@ func NewRSARecipient(pk) (r, err)
 //@   requires pk != nil
